@@ -11,8 +11,8 @@ package main
 //	crash                          -> <tag>=<snapshot dir>;…  for the last state-changing request
 //	recover <dir>                  open (non-volatile, load, default options), read everything, close
 //	                               -> ok:<k=len.hash,…>
-//	probe <dir>                    open, Put(sentinel), Sync, Close, open, read everything, close
-//	                               -> ok:<k=len.hash,…>
+//	probe <dir>                    recover, then Put(sentinel), Sync, Close, open, read everything, close
+//	                               -> ok:<k=len.hash,…>|ok:<k=len.hash,…>
 
 import (
 	"bufio"
@@ -224,7 +224,9 @@ func (w *worker) handle(t []string) string {
 		w.db, w.vol = openOpts(w.dir, t[1:])
 		return mut("ok")
 	case "recover", "probe":
+		// recover: open, read everything. probe: additionally Put(sentinel), Sync, Close, reopen, read everything.
 		db, _ := qdb.NewDB(t[1], true)
+		rep := "ok:" + kvStr(readAll(db))
 		if t[0] == "probe" {
 			db.Put(qdb.KeyType(sentinelKey), []byte("probe"))
 			db.Sync()
@@ -232,10 +234,10 @@ func (w *worker) handle(t []string) string {
 			db.Mutex.Unlock()
 			db.Close()
 			db, _ = qdb.NewDB(t[1], true)
+			rep += "|ok:" + kvStr(readAll(db))
 		}
-		m := readAll(db)
 		db.Close()
-		return "ok:" + kvStr(m)
+		return rep
 	case "crash":
 		// nothing to evaluate when no vhook.Point fired: the directory did not change
 		hooks := 0
@@ -313,10 +315,11 @@ func (w *worker) handle(t []string) string {
 		}
 		if t[0] == "browse" {
 			w.db.Browse(f)
-		} else {
-			w.db.BrowseAll(f)
+			return mut(kvStr(m))
 		}
-		return mut(kvStr(m))
+		n := w.db.Count()
+		w.db.BrowseAll(f)
+		return mut(strconv.Itoa(n) + " " + kvStr(m))
 	case "count":
 		return strconv.Itoa(w.db.Count())
 	}
